@@ -7,6 +7,7 @@
 package vsim
 
 import (
+	"errors"
 	"bufio"
 	"bytes"
 	"crypto/ecdsa"
@@ -91,6 +92,7 @@ type Route struct {
 type Conn struct {
 	Host    int       // index of the listener that accepted it
 	TLS     bool      // handshake completed
+	Aborted bool      // the peer began a TLS handshake and gave it up: nothing was sent
 	Request []byte    // everything the client sent (until the response was written / the connection ended)
 	Target  string    // request target if a request line could be parsed
 	At      time.Time
@@ -319,6 +321,12 @@ func (s *Sim) handle(h *host, raw net.Conn) {
 	tc := tls.Server(raw, tlsConf)
 	tc.SetDeadline(time.Now().Add(20 * time.Second))
 	if err := tc.Handshake(); err != nil {
+		var rhe tls.RecordHeaderError
+		if errors.As(err, &rhe) {
+			rec.Request = append([]byte(nil), rhe.RecordHeader[:]...) // the client did not speak TLS: these are its first bytes
+		} else {
+			rec.Aborted = true // a TLS handshake was begun and given up (certificate not accepted, …): no application data
+		}
 		s.record(rec)
 		return
 	}
